@@ -267,7 +267,10 @@ def branch_trail(ex, key, f, depth=2):
                 idx = blk.succ.index(b[0])
             except ValueError:
                 continue
-            trail.append('%s:%s' % (term_str(term(f, blk.term['cond'])), 'T' if idx == 0 else 'F'))
+            tt = term(f, blk.term['cond'])
+            if tt[0] == 'const':
+                continue
+            trail.append('%s:%s' % (term_str(tt), 'T' if idx == 0 else 'F'))
     return trail[-depth:]
 
 
